@@ -557,7 +557,7 @@ fn cursor_queries(project: &Project, sc: &mut StateCtx, fname: &str, src: &Sourc
         // the expensive queries (completion: ~ms with ieee loaded; references: a search of the whole project) run at the
         // cursors next to the edit, at the out-of-range cursors and at every 4th of the others
         let close = near.map(|n| l.saturating_add(1) >= n && l <= n.saturating_add(1)).unwrap_or(false);
-        let expensive = full || close || l >= nlines || i % 4 == 0;
+        let expensive = full || close || (l >= nlines && near.is_some()) || i % 4 == 0;
         if i % 16 == 0 {
             hb.beat();
         }
@@ -805,6 +805,7 @@ fn run_case(case: &Case, dir: &Path, hb: &Heartbeat, out: &Out, opts: &Opts) -> 
         }
     };
     let mut arena_trace: Vec<Value> = vec![];
+    let mut seen_arenas: std::collections::BTreeSet<u32> = [0u32].into_iter().collect();
     let nsteps = case.edits.len();
     for step in 0..=nsteps {
         let mut edited: Option<(String, u32)> = None;
@@ -854,9 +855,14 @@ fn run_case(case: &Case, dir: &Path, hb: &Heartbeat, out: &Out, opts: &Opts) -> 
         check_diags(&project, &mut sc, &diags);
         // files to query: the edited one, plus one other; at step 0 and at the last step all of them
         let mut qfiles: Vec<String> = vec![];
-        let lean = case.family == "kinds";
+        let lean = case.family == "kinds" || case.family == "lits";
+        let batch = case.family.ends_with("-batch");
         if lean && step > 0 && step < nsteps {
             // per-site sweep of the kind-confusion family: thousands of states that differ in one line
+            if let Some((f, _)) = &edited {
+                qfiles.push(f.clone());
+            }
+        } else if batch && step > 0 && step < nsteps {
             if let Some((f, _)) = &edited {
                 qfiles.push(f.clone());
             }
@@ -878,7 +884,7 @@ fn run_case(case: &Case, dir: &Path, hb: &Heartbeat, out: &Out, opts: &Opts) -> 
             let text = source_text(&src);
             let near = edited.as_ref().filter(|(f, _)| f == fname).map(|(_, l)| *l);
             let is_edited = near.is_some();
-            let max = if is_edited || step == nsteps { opts.max_cursors } else { opts.max_cursors / 4 };
+            let max = if batch && step < nsteps { opts.max_cursors.min(16) } else if is_edited || step == nsteps { opts.max_cursors } else { opts.max_cursors / 4 };
             let mut cursors = if lean && near.is_some() && step < nsteps {
                 let nl = near.unwrap();
                 let mut on_line: Vec<(u32, u32)> = boundaries(&text).into_iter().filter(|(l, _)| *l == nl).collect();
@@ -887,7 +893,6 @@ fn run_case(case: &Case, dir: &Path, hb: &Heartbeat, out: &Out, opts: &Opts) -> 
                     on_line = on_line.into_iter().enumerate().filter(|(i, _)| i % 2 == 0).map(|(_, c)| c).collect();
                 }
                 on_line.push((nl, u32::MAX));
-                on_line.push((u32::MAX, 0));
                 on_line
             } else {
                 select_cursors(&mut r, &text, near, max.max(4), opts.exhaustive_cursors)
@@ -908,6 +913,38 @@ fn run_case(case: &Case, dir: &Path, hb: &Heartbeat, out: &Out, opts: &Opts) -> 
         if opts.arena_trace && (!lean || step % 8 == 0 || step == nsteps) {
             *hb.current.lock().unwrap() = "arena observation (Project::search)".to_string();
             hb.beat();
+            // ids at and around the arena sizes: whatever entity_id_from_raw accepts, get_ent (format_entity) must serve
+            // (completionItem/resolve with a stale item). Every arena id ever seen in this case is probed.
+            let probe = catch_unwind(AssertUnwindSafe(|| {
+                let mut n = 0usize;
+                for &a in seen_arenas.iter() {
+                    let raw = |k: usize| ((a as usize) << 32) | k;
+                    if project.entity_id_from_raw(raw(0)).is_none() {
+                        continue;
+                    }
+                    // size by exponential + binary search on is_valid_id
+                    let mut hi = 1usize;
+                    while project.entity_id_from_raw(raw(hi)).is_some() && hi < (1 << 24) {
+                        hi *= 2;
+                    }
+                    let mut lo = hi / 2;
+                    while lo + 1 < hi {
+                        let mid = (lo + hi) / 2;
+                        if project.entity_id_from_raw(raw(mid)).is_some() { lo = mid } else { hi = mid }
+                    }
+                    for k in lo.saturating_sub(2)..=lo {
+                        if let Some(id) = project.entity_id_from_raw(raw(k)) {
+                            let _ = project.format_entity(id);
+                            n += 1;
+                        }
+                    }
+                }
+                n
+            }));
+            match probe {
+                Err(e) => sc.report("panic", "entity_id_from_raw + format_entity (completionItem/resolve of an id at the arena size)", panic_text(&e), None),
+                Ok(n) => sc.stats.queries += n,
+            }
             let res = catch_unwind(AssertUnwindSafe(|| {
                 let mut obs = ArenaObs { project: &project, decl_arenas: BTreeMap::new(), invalid: vec![], nrefs: 0, ndecls: 0, dir: dir.display().to_string() };
                 project.search(&mut obs);
@@ -919,6 +956,11 @@ fn run_case(case: &Case, dir: &Path, hb: &Heartbeat, out: &Out, opts: &Opts) -> 
                 Ok((invalid, nrefs, ndecls, units)) => {
                     for p in invalid.into_iter().take(2) {
                         sc.report("arena", "entity id not resolvable", p, None);
+                    }
+                    for u in &units {
+                        if let Some(a) = u.get(5).and_then(|x| x.as_u64()) {
+                            seen_arenas.insert(a as u32);
+                        }
                     }
                     arena_trace.push(json!({"step": step, "edited": edited.as_ref().map(|(f, _)| f.clone()), "nrefs": nrefs, "ndecls": ndecls,
                         "units": units}));
@@ -1207,6 +1249,12 @@ fn main() {
             // the systematic kind-confusion sweep first (never cut by the time budget), then the random histories
             let stride: usize = args.get(12).and_then(|s| s.parse().ok()).unwrap_or(2);
             let mut cases: Vec<Case> = if stride == 0 { vec![] } else { gen::zoo_cases(seed, stride) };
+            if stride != 0 {
+                // literal family: all literals in the region batches; per site every 2nd (thorough) / 24th (quick) literal
+                cases.extend(gen::lit_cases(seed, if stride == 1 { 2 } else { 24 }));
+            }
+            // duplicate-file scenarios: one for every 8 random histories
+            cases.extend((0..(ncases + 7) / 8).map(|i| gen::dup_case(seed, i, nsteps / 2)));
             let nkinds = cases.len();
             cases.extend((0..ncases).map(|i| gen::gen_case(seed, i, nsteps)));
             if let (Some(p), Some(n)) = (args.get(9), args.get(10)) {
@@ -1267,6 +1315,14 @@ fn main() {
                 println!("{} {}:{} {:?} {} | {}", d.pos.source.file_name().display(), d.pos.range.start.line + 1, d.pos.range.start.character, d.code, d.message, if d.pos.source.file_name().ends_with("uses.vhd") { line } else { "" });
             }
             println!("-- zoo done");
+            let mut case = gen::lit_case("lits".into(), 0, 1, 0);
+            case.edits.clear();
+            let mut p = make_project(&case, &dir);
+            for d in p.analyse() {
+                let line = case.files[0].1.lines().nth(d.pos.range.start.line as usize).unwrap_or("");
+                println!("{} {}:{} {:?} {} | {}", d.pos.source.file_name().display(), d.pos.range.start.line + 1, d.pos.range.start.character, d.code, d.message, line);
+            }
+            println!("-- lits done: {} literals x {} sites", gen::literals().len(), gen::LIT_SITES.len());
         }
         _ => {
             eprintln!("usage: c03 gen|cases|min|show|base ...");
